@@ -66,6 +66,7 @@ func checkC05(r *Run) {
 	runPacksWith(r, cases, 40, variants, "lower", nil, &st, featSource)
 	r.Count("featgen_cases", len(cases))
 	c05Using(r)
+	c05Exports(r)
 
 	// the (parent × child) table under a few targets
 	rng := newRng(r.Seed, "c05")
